@@ -5,7 +5,7 @@
    `plain v`: naive, FixedTimezone, or a zone without transitions (UTC).  All statements are for EVERY representable value, unit and configuration. *)
 From Coq Require Import ZArith List Bool.
 From PV Require Import Lib.PyBase Spec.Cal Spec.Zone Proofs.ZoneFacts Model.TzConvert Model.StartEndBase Gen.StartEnd Model.StartEnd.
-From PV Require Import Proofs.C12Spec Proofs.C12Facts Proofs.C12Week Proofs.C12Main.
+From PV Require Import Proofs.C12Spec Proofs.C12Facts Proofs.C12Week Proofs.C12Main Proofs.C12WeekDst.
 Import ListNotations.
 Open Scope Z_scope.
 
@@ -141,6 +141,64 @@ Theorem dst_hypotheses_are_satisfiable :
   ~ wall_skipped (v_zone (sp_value false)) (sec (unit_lo 2 0 (v_W (sp_value false)))) /\ 0 <= unit_lo 2 0 (v_W (sp_value false)).
 Proof. exact dst_hypotheses_satisfiable. Qed.
 Print Assumptions dst_hypotheses_are_satisfiable.
+
+(* --- the week unit in a tz-database zone.  previous() walks back day by day re-creating the carried wall time with the default fold 1: a
+       skipped wall time on a walked day (a day that begins at 01:00) is moved forward by the gap and the walk continues with the shifted time
+       of day; the trailing start_of('day') of _start_of_week removes it again.  So when the midnight of the value's own day and of the week's
+       first day exist, and every skipped wall time of the walked days is moved within its calendar day (stays_in_day; true of every gap
+       shorter than the rest of its day, false e.g. for the whole-day gap of Pacific/Apia), start_of('week') is the first microsecond of the
+       week and idempotent — whatever happens to the midnights STRICTLY INSIDE the walk.
+       end_week_dst_partial: the same for next() / end_of('week') and the week's last microsecond.
+       _partial: the statements about instants (start <= x <= end as instants, the neighbouring microsecond) are not proved here. --- *)
+Theorem start_week_dst_partial : forall ws v, v_kind v = 2 -> wall_in_range (v_W v) = true -> 0 <= ws <= 6 ->
+  let z := v_zone v in let W := v_W v in let lo := unit_lo 4 ws W in
+  0 <= lo -> ~ wall_skipped z (sec (unit_lo 3 0 W)) -> ~ wall_skipped z (sec lo) ->
+  (forall W', lo <= W' < unit_lo 3 0 W -> stays_in_day z W') ->
+  exists f', dt_start_of ws 4 v = Ok (lo, f') /\ dt_start_of ws 4 (upd v (lo, f')) = Ok (lo, f').
+Proof. exact start_week_dst. Qed.
+Print Assumptions start_week_dst_partial.
+
+Theorem end_week_dst_partial : forall ws v, v_kind v = 2 -> wall_in_range (v_W v) = true -> 0 <= ws <= 6 ->
+  let z := v_zone v in let W := v_W v in let hi := unit_hi 4 ws W in
+  hi <= MAXW -> ~ wall_skipped z (sec (unit_lo 3 0 W)) -> ~ wall_skipped z (sec hi) ->
+  (forall W', unit_hi 3 0 W < W' <= hi -> stays_in_day z W') ->
+  exists f', dt_end_of (we_of ws) 4 v = Ok (hi, f') /\ dt_end_of (we_of ws) 4 (upd v (hi, f')) = Ok (hi, f').
+Proof. exact end_week_dst. Qed.
+Print Assumptions end_week_dst_partial.
+
+(* the hypotheses are satisfiable WITH a skipped midnight strictly inside the walk: Asia/Tehran, Saturday 2018-03-24 12:00, default week;
+   Thursday 2018-03-22 begins at 01:00 *)
+Theorem start_week_dst_hypotheses_are_satisfiable : forall f,
+  let v := tehran_sat f in let lo := unit_lo 4 0 (v_W v) in
+  v_kind v = 2 /\ wall_in_range (v_W v) = true /\ 0 <= lo /\
+  ~ wall_skipped (v_zone v) (sec (unit_lo 3 0 (v_W v))) /\ ~ wall_skipped (v_zone v) (sec lo) /\
+  (forall W', lo <= W' < unit_lo 3 0 (v_W v) -> stays_in_day (v_zone v) W') /\
+  (exists W', lo <= W' < unit_lo 3 0 (v_W v) /\ wall_skipped (v_zone v) (sec W')).
+Proof. exact start_week_dst_satisfiable. Qed.
+Print Assumptions start_week_dst_hypotheses_are_satisfiable.
+
+(* Tuesday 2018-03-20 12:00 Asia/Tehran: the forward walk of next(SUNDAY) passes Thursday's skipped midnight *)
+Theorem end_week_dst_hypotheses_are_satisfiable : forall f,
+  let v := tehran_tue f in let hi := unit_hi 4 0 (v_W v) in
+  v_kind v = 2 /\ wall_in_range (v_W v) = true /\ hi <= 315537897599999999 /\
+  ~ wall_skipped (v_zone v) (sec (unit_lo 3 0 (v_W v))) /\ ~ wall_skipped (v_zone v) (sec hi) /\
+  (forall W', unit_hi 3 0 (v_W v) < W' <= hi -> stays_in_day (v_zone v) W') /\
+  (exists W', unit_hi 3 0 (v_W v) < W' <= hi /\ wall_skipped (v_zone v) (sec W')).
+Proof. exact end_week_dst_satisfiable. Qed.
+Print Assumptions end_week_dst_hypotheses_are_satisfiable.
+
+(* on that value previous(MONDAY) ALONE arrives at Monday 01:00 (the hour by which Thursday's midnight was moved is carried along), one
+   microsecond before which it is still the same week; start_of('week') is Monday 00:00, and the microsecond before it is another week.
+   Returning the walk's result without the final start_of('day') would therefore break the property exactly here. *)
+Theorem week_walk_carries_the_gap_shift :
+  wf2_zone tehran_2018 = true /\ wall_skipped tehran_2018 (sec 63657273600000000) /\
+  unit_lo 4 0 63657489600000000 = 63657014400000000 /\
+  (forall f, dt_previous (tehran_sat f) 0 = Ok (mkdtv tehran_2018 2 63657018000000000 true)) /\
+  (forall f, dt_start_of 0 4 (tehran_sat f) = Ok (63657014400000000, true)) /\
+  unit_id 4 0 (fst (render tehran_2018 (inst tehran_2018 63657014400000000 true - 1))) <> unit_id 4 0 63657489600000000 /\
+  unit_id 4 0 (fst (render tehran_2018 (inst tehran_2018 63657018000000000 true - 1))) = unit_id 4 0 63657489600000000.
+Proof. exact tehran_facts. Qed.
+Print Assumptions week_walk_carries_the_gap_shift.
 
 (* --- refutations (faithful model, real tables) --- *)
 (* America/Sao_Paulo, 2013-10-20 10:00 -02:00: local midnight is skipped.  The value obtained by conversion (fold 0) gets
